@@ -1042,7 +1042,7 @@ mod os {
             ensure_child_stream(&mut child_stdout, StandardStream::Output)?;
             ensure_child_stream(&mut child_stderr, StandardStream::Error)?;
             let cmdline = assemble_cmdline(argv)?;
-            let env_block = config.env.map(|env| format_env_block(&env));
+            let env_block = config.env.map(|env| format_env_block(&env)).transpose()?;
             // CreateProcess doesn't search for appname in the PATH.
             // We do it ourselves to match the Unix behavior.
             let executable = config.executable.map(locate_in_path);
@@ -1119,7 +1119,7 @@ mod os {
         }
     }
 
-    fn format_env_block(env: &[(OsString, OsString)]) -> Vec<u16> {
+    fn format_env_block(env: &[(OsString, OsString)]) -> io::Result<Vec<u16>> {
         fn to_uppercase(s: &OsStr) -> OsString {
             OsString::from_wide(
                 &s.encode_wide()
@@ -1143,6 +1143,13 @@ mod os {
         pruned.reverse();
         let mut block = vec![];
         for (k, v) in pruned {
+            // A NUL would end the string early and turn the rest of it
+            // into another variable.
+            if k.encode_wide().chain(v.encode_wide()).any(|c| c == 0) {
+                return Err(io::Error::from_raw_os_error(
+                    win32::ERROR_BAD_PATHNAME as i32,
+                ));
+            }
             block.extend(k.encode_wide());
             block.push('=' as u16);
             block.extend(v.encode_wide());
@@ -1154,7 +1161,7 @@ mod os {
             block.push(0);
         }
         block.push(0);
-        block
+        Ok(block)
     }
 
     trait PopenOsImpl {
